@@ -4,6 +4,7 @@ pub mod common;
 pub mod p_hist;
 pub mod p_meta;
 pub mod p_model;
+pub mod p_partial;
 pub mod p_res;
 pub mod p_scan;
 pub mod p_total;
@@ -61,6 +62,10 @@ pub fn all() -> Vec<PropDef> {
         meta_prop!("C04", p_meta::run_c04, p_meta::check_c04, "part (a): G1 messages under every usable runtime backend (hook H2), lenient-weighted messages, bounded-exhaustive header strings; all outcomes. Oracle: pointer arithmetic — every non-empty returned slice lies in [buf,buf+len), on Complete(n) inside buf[..n] and in strictly increasing non-overlapping order method<path|reason<name0<value0<.... Non-trivial = >=1 header with non-empty value, or Partial/Err with a start-line field set; distinct by hash of (entry,cfg,cap,backend,buffer). part (b) (compile-time corpus) is reported in coverage.compile_corpus", META_ASSUME),
         meta_prop!("C05", p_meta::run_c05, p_meta::check_c05, "256 byte values x every position of 12 bases (each header option exercised) x 4 configs, lane phases 0..=70/140 x 256 values x 6 elements (target, reason, name, value, folded value, ignored-line tail), bounded-exhaustive header strings x option combinations, G1 default- and lenient-weighted messages. Oracle: predicates transcribed from the statement on every Complete (tchar method/names, target class + UTF-8, version, code re-read from the buffer, reason/value classes, trimming, fold rules, no NUL / bare CR in buf[..n]) and UTF-8 validity of every &str on every outcome. Non-trivial = Complete with the swept byte inside buf[..n], or a field containing obs-text / HTAB / a fold; distinct by hash of (entry,cfg,cap,buffer)", META_ASSUME),
         PropDef { id: "C18", run: p_hist::run, check: p_hist::check, max_buf: 80_000, assumptions: META_ASSUME, rule: "stateful: a history = 1..4 earlier calls (entry point among the kind's four, any config, buffer = fresh G1 message / prefix of the probe / the probe itself / a fixed 3-header message; or the README loop: growing prefixes of the probe with the probe's entry and config) on one Request/Response and one header array (uninit variants get their own arrays), then a probe call; plus every ordered pair of 8 fixed messages x 4x4 entry points x 3 capacities. Histories are generated as choice bytes (vec(op) + interpreter) and shrink as one value. Oracle: probe on the reused value vs probe on a fresh value whose array length equals the reused value's headers.len() before the probe: identical status; on Complete identical fields and headers. Non-trivial = the history contains a Complete or Partial call and the probe gets past its first start-line field; distinct by hash of (probe entry,cfg,cap,probe buffer,ops,history buffers)" },
+        PropDef { id: "C11", run: p_partial::run, check: p_partial::check, max_buf: 80_000, assumptions: &[
+            "existential oracle decided by search with the real parser: the completion set is every tail of a few complete messages (about 50 per kind), valid UTF-8 continuations of a truncated sequence, and depth-2 concatenations; a completable Partial that none of these completes would be a false alarm (none met on the unchanged tree over many seeds)",
+            "the stated exception (request target with a definitely invalid UTF-8 sequence, deferred to its terminating SP) is recognised with the reference model and excluded (counted); capacity is set to lines+8 so the other exception cannot arise",
+        ], rule: "every Partial in the prefix closure of G1 bases (default- and lenient-weighted, all kinds/configs/entry points), 256 byte values at every position of 8 bases, bounded-exhaustive start-line token strings, header strings x 10 option/kind combos and chunk-size strings. Oracle: exists suffix s in the completion set with parse(buffer+s) = Complete. Non-trivial = a Partial of >= 4 bytes whose witness is longer than a bare terminator; distinct by hash of (entry,cfg,base buffer)" },
         PropDef { id: "C12", run: p_scan::run, check: p_scan::check, max_buf: 4096, assumptions: &[
             "NEON is checked through a source transformation of the current neon.rs compiled against a scalar emulation of the aarch64 intrinsics (vlib/src/neon_emu.rs, transcribed from the Arm reference), not on hardware",
             "word size 8 (x86-64) only for the SWAR backend",
